@@ -108,6 +108,9 @@ mod kani_harness {
 	inst!(c16_find_tile_2, c16_find, [2], 6);
 	inst!(c16_find_tile_3, c16_find, [3], 7);
 	inst!(c16_find_tile_5, c16_find, [5], 9);
+	inst!(c16_find_tile_8, c16_find, [8], 12);
+	inst!(c16_find_tile_13, c16_find, [13], 17);
+	inst!(c16_find_tile_16, c16_find, [16], 20);
 
 	// ------------------------------------------------------------------ C01/C16: directory layout, independent varint codec
 	fn put_varint(out: &mut Vec<u8>, mut v: u64) {
